@@ -9,6 +9,11 @@ IMPORTS = "From OV Require Import Model.Vector Model.Matrix Model.MatOps Model.S
 MODEL_VO = ["Model/Solve.vo"]
 RULE = ("square systems n=1..8: dense, zero/tiny leading pivots at several steps, permutation-like, triangular, several exchanges, badly row-scaled, Wilkinson growth matrices; "
         "Rat (exact, vs Qc model), f64 and Complex<f64> (vs primitive-float model, scaled 1e-6..1e6); both solvers per system; "
+        "round four: 18 special structures (identity, scalar, diagonal, unit triangular, anti-diagonal, cyclic shift, Toeplitz, arrow, all entries +-1, "
+        "columns of equal magnitude, symmetric, last-row-dominant, gapped band, diagonal plus corners) x special right-hand sides (0, e_1, e_n, ones, "
+        "alternating, A*ones, last column) at all three element kinds (Complex: columns times 1, +-i, 0.6+0.8i, 1+i); Complex matrices of special values only; "
+        "signed zeros; whole system scaled by 2^+-k (k = 200..900 f64, half of them beyond 2^+-512 where squares leave the range; 100..300 Complex); orders 9..12 (Rat) and 9..24 (floats; ..40 thorough); "
+        "mis-shaped systems at f64 and Complex as well; "
         "distinct = distinct executor line; non-trivial = n >= 2 and nonsingular")
 TRUSTED = ["Coq 8.16.1 kernel + vm_compute", "Rust executor /verif/harness (Rat = i128 rationals)", "python driver (generators, Fraction residual oracle, comparators)",
            "hand-written Gallina model coq/Model/Solve.v tied to src/matrix/solve.rs by differential execution"]
@@ -26,7 +31,9 @@ MANIFEST = dict(
           "'solved, uniquely' at Qc, R and C (the model's own complex operators), and a 3x3 rational example with a zero leading entry and two "
           "row exchanges evaluated by vm_compute.  The model is run against the implementation on every check (Rat vs Qc exact, f64/Complex<f64> "
           "vs primitive floats; both solvers; zero/tiny pivots, permutation-like, triangular, singular and mis-shaped systems) and an independent "
-          "Fraction/float residual oracle searches for a failing input; the measured distribution of row exchanges per system is in the evidence."),
+          "Fraction/float residual oracle searches for a failing input; the measured distribution of row exchanges per system is in the evidence. "
+          "Structured families (round four): special structures x special right-hand sides, Complex entries on the axes / of unit modulus / with |re| = |im|, "
+          "signed zeros, systems scaled by 2^+-k up to k = 900, orders up to 24 (40 thorough), mis-shaped systems at every element kind."),
     note=("Float backward stability (1e-11 normwise) is searched, not proved.  The LU half of the property (solve_lu_sound, solvers_agree) "
           "rests on package c02's theorems (Proofs/Solve.v: solvers_agree_from_lu_sound composes them); here solve_lu is tied and searched. "
           "Completeness needs PivLaws (abs x = 0 <-> x = 0, x <> 0 -> 0 < |x|, not |x| < 0): MagLaws of DESIGN Appendix E is too weak. "
@@ -275,6 +282,129 @@ def generate(rng, tier):
                         "(let* x := @solve_basic AQ %s %s in let* y := @solve_lu AQ %s %s in Ok (x, y))") % (
                         coq_mat('rat', M), coq_vec('rat', b), coq_mat('rat', M), coq_vec('rat', b))
                 cases.append(Case('rat', line, term, meta={"bad": True, "r": r, "c": c, "lb": lb}, family="rejects", nontrivial=True))
+    cases += gen_special(rng, tier)
+    return cases
+
+# ---- round four (package specA): the structured classes a data-dependent fast path, a magnitude shortcut, a tie-breaking rule or a
+# size threshold would single out and that the random families above never draw (findings/special-values-specA.md)
+def rot(g, xs, k):
+    """k elements of xs starting at a seed-dependent offset (quick tier: the families rotate with the seed instead of being dropped)"""
+    if k >= len(xs): return list(xs)
+    o = g.below(len(xs))
+    return [xs[(o + i) % len(xs)] for i in range(k)]
+
+def int_matrix(g, n, fam):
+    """n x n matrix of small integers (exact Fraction test of nonsingularity stays cheap for large n)"""
+    for _ in range(30):
+        A = [float(g.range(-8, 8)) if g.chance(5, 6) else 0.0 for _ in range(n * n)]
+        if fam == "zero-lead":
+            for k in range(n):
+                if g.chance(2, 3): A[k*n+k] = 0.0
+        elif fam == "perm":
+            p = g.shuffle(range(n))
+            A = [(float(g.range(-3, 3)) if g.chance(1, 6) else 0.0) for _ in range(n * n)]
+            for i in range(n): A[i*n+p[i]] = float(g.range(4, 9) * (1 if g.chance(1, 2) else -1))
+        if nonsingular(A, n): return A
+    return None
+
+def gen_special(rng, tier):
+    cases = []
+    quick = tier == "quick"
+    # (s1) special STRUCTURE x special right-hand side, all three element kinds, n = 1..6 (thorough: every combination up to 8)
+    g = rng.fork("special-structure")
+    for n in (range(1, 7) if quick else range(1, 9)):
+        for name, A in special_matrices(g, n):
+            rhs = special_rhs(g, A, n)
+            for bname, b in (rot(g, rhs, 2) if quick else rhs):
+                cases.append(mk('rat', n, A, b, "special-rat-" + name, n >= 2))
+            bname, b = rhs[g.below(len(rhs))]
+            cases.append(mk('f64', n, [float(x) for x in A], [float(x) for x in b], "special-f64-" + name, n >= 2))
+            # the same structure with every column multiplied by a unit-modulus number (still nonsingular): entries on the axes,
+            # off the axes with modulus exactly 1 (0.6+0.8i), with |re| = |im|
+            us = [g.choice([1, 1j, -1j, complex(0.6, 0.8), complex(-0.8, 0.6), 1 + 1j]) for _ in range(n)]
+            Ac = [complex(float(A[i*n+j])) * us[j] for i in range(n) for j in range(n)]
+            bc = [complex(float(x)) * g.choice([1, 1j, complex(0.6, -0.8)]) for x in b]
+            cases.append(mk('cplx', n, Ac, bc, "special-cplx-" + name, n >= 2))
+    # (s2) Complex<f64> matrices whose entries are ALL special values (+-1, +-i, 0.6+0.8i, 1+-i, 2, 1/2, 3+4i, 0)
+    g = rng.fork("special-cplx-values")
+    for t in range(24 if quick else 200):
+        n = 1 + (t % 6)
+        A = special_cplx_matrix(g, n)
+        if A is None: continue
+        b = [complex(CPLX_SPECIAL[g.below(len(CPLX_SPECIAL))]) for _ in range(n)]
+        cases.append(mk('cplx', n, A, b, "special-cplx-values", n >= 2))
+    # (s3) signed zeros: every zero of A and b replaced by -0.0 with probability 1/2 (f64 and Complex<f64>)
+    g = rng.fork("neg-zero")
+    for t in range(18 if quick else 120):
+        n = 1 + (t % 6)
+        fam = ["zero-lead", "perm", "upper", "lower"][t % 4]
+        for _ in range(20):
+            A = gen_matrix(g, n, fam, 'f64')
+            if nonsingular(A, n): break
+        if not nonsingular(A, n): continue
+        nz = lambda x: (-0.0 if (x == 0 and g.chance(1, 2)) else x)
+        A = [nz(x) for x in A]
+        b = [nz(fval(g)) for _ in range(n)]
+        if t % 3 == 2:
+            cases.append(mk('cplx', n, [complex(x, nz(0.0)) for x in A], [complex(x, nz(0.0)) for x in b], "cplx-neg-zero", n >= 2))
+        else:
+            cases.append(mk('f64', n, A, b, "f64-neg-zero", n >= 2))
+    # (s4) magnitudes: the whole system scaled by 2^+-k, k = 200..900 (f64; the exact solution does not change), and by 2^+-k,
+    # k = 100..300 for Complex<f64> (inside the range where re^2 + im^2 is a normal number: not the recorded finding);
+    # well-conditioned patterns with row exchanges.  "whatever the magnitudes" is part of the statement.
+    g = rng.fork("extreme-scale")
+    for t in range(36 if quick else 240):
+        n = 1 + (t % 6)
+        fam = ["dense", "zero-lead", "perm", "neg-dominant", "upper", "lower"][(t // 6) % 6]
+        A = None
+        for _ in range(20):
+            A = gen_matrix(g, n, fam, 'f64')
+            if nonsingular(A, n): break
+        if A is None or not nonsingular(A, n): continue
+        cplx = t % 3 == 2
+        # f64: half of the exponents beyond 2^+-512, where the SQUARE of an entry leaves the f64 range although every quantity the
+        # elimination needs (entries, quotients, products of a quotient with an entry) stays inside it
+        k = g.range(100, 300) if cplx else (g.range(520, 900) if t % 2 == 0 else g.range(200, 519))
+        sc = 2.0 ** (k if g.chance(1, 2) else -k)
+        b = [fval(g) for _ in range(n)]
+        if cplx:
+            A = [complex(x, fval(g) if g.chance(1, 2) else 0.0) * sc for x in A]
+            b = [complex(x, fval(g)) * sc for x in b]
+            cases.append(mk('cplx', n, A, b, "cplx-scaled-2^%s" % ("+k" if sc > 1 else "-k"), n >= 2))
+        else:
+            # the right-hand side at the scale of A (x = O(1)) or at scale 1 (x tiny/huge but representable: |k| <= 900)
+            bs = sc if g.chance(2, 3) else 1.0
+            cases.append(mk('f64', n, [x * sc for x in A], [x * bs for x in b], "f64-scaled-2^%s" % ("+k" if sc > 1 else "-k"), n >= 2))
+    # (s5) orders above 8 (a blocked / unrolled loop shows its remainder handling only from a few blocks on): Rat 9..12,
+    # f64 / Complex<f64> 9..24 (thorough: ..40), integer entries so that the exact nonsingularity test stays cheap
+    g = rng.fork("large-order")
+    big_r = rot(g, [9, 10, 11, 12], 2) if quick else [9, 10, 11, 12]
+    for n in big_r:
+        for fam in ["dense", "perm"]:
+            A = int_matrix(g, n, fam)
+            if A is None: continue
+            cases.append(mk('rat', n, [Fraction(int(x)) for x in A], [Fraction(g.range(-4, 4)) for _ in range(n)], "rat-order-9..12-" + fam, True))
+    big_f = sorted(set([16, 17] + rot(g, list(range(9, 25)), 4))) if quick else list(range(9, 41))
+    for n in big_f:
+        for fam in (["dense", "zero-lead", "perm"] if not quick else rot(g, ["dense", "zero-lead", "perm"], 2)):
+            A = int_matrix(g, n, fam)
+            if A is None: continue
+            b = [float(g.range(-8, 8)) for _ in range(n)]
+            cases.append(mk('f64', n, A, b, "f64-order-9..40-" + fam, True))
+            if n <= 24 and (not quick or n in (16, 17)):
+                cases.append(mk('cplx', n, [complex(x, float(g.range(-3, 3)) if g.chance(1, 3) else 0.0) for x in A],
+                                [complex(x, float(g.range(-3, 3))) for x in b], "cplx-order-9..24-" + fam, True))
+    # (s6) mis-shaped systems at the float element kinds as well (the guards are generic code, the element kind is not)
+    g = rng.fork("bad-float")
+    for elt in ('f64', 'cplx'):
+        for (r, c, lb) in [(0, 0, 0), (1, 1, 0), (1, 1, 2), (2, 2, 1), (2, 2, 3), (2, 3, 2), (3, 2, 3), (3, 2, 2), (1, 2, 1), (2, 1, 2), (0, 1, 0), (1, 0, 1)]:
+            conv = (lambda x: float(x)) if elt == 'f64' else (lambda x: complex(float(x), 1.0))
+            M = (r, c, [conv(g.range(-4, 4)) for _ in range(r * c)]); b = [conv(g.range(-4, 4)) for _ in range(lb)]
+            line = "mat.solve_both %s %s" % (tok_mat(elt, M), tok_vec(elt, b))
+            term = ("fl_res (fun p : list _ * list _ => fl_list %s (fst p) ++ fl_list %s (snd p)) "
+                    "(let* x := @solve_basic %s %s %s in let* y := @solve_lu %s %s %s in Ok (x, y))") % (
+                    FLAT[elt], FLAT[elt], ARITH[elt], coq_mat(elt, M), coq_vec(elt, b), ARITH[elt], coq_mat(elt, M), coq_vec(elt, b))
+            cases.append(Case(elt, line, term, meta={"bad": True, "r": r, "c": c, "lb": lb}, family="rejects-" + elt, nontrivial=True))
     return cases
 
 def case_from_json(j):
